@@ -71,5 +71,10 @@ class MultipleOf(Validator):
             if not is_multiple:
                 raise ValidationError
             return
-        if value % multiple_of:
+        try:
+            remainder = value % multiple_of
+        except OverflowError:
+            # A float value and an integer beyond the float range.
+            remainder = Fraction(value) % multiple_of
+        if remainder:
             raise ValidationError
